@@ -1,6 +1,7 @@
 package mon
 
 import (
+	"strings"
 	"fmt"
 
 	"verifharness/core"
@@ -118,6 +119,20 @@ func sentinelNode(i int) *gen.Node { return &gen.Node{Kind: "sentinel", N: []int
 // newIsWorld builds the tree of the case and its reference pool.
 func newIsWorld(c *core.Ctx, g *gen.Gen, maxDepth int, withPerturb bool) *isWorld {
 	t := caseTree(c, g, maxDepth)
+	// one case in ten ends its main chain in the sometimes-leaf-sometimes-wrapper type with a text of the
+	// form "a: b": the same text is then also the text of that type used as a WRAPPER around a leaf, a
+	// reference whose type chain strictly extends the candidate's (see below)
+	var lowAt *gen.Node
+	if withPerturb && c.Case%10 == 9 {
+		n := t
+		for len(n.Kids) == 1 && !model.IsMulti(n) && len(n.Kids[0].Kids) > 0 {
+			n = n.Kids[0]
+		}
+		if len(n.Kids) == 1 && !model.IsMulti(n) {
+			lowAt = &gen.Node{Kind: "lowleaf", S: []string{g.Str(g) + ": " + g.Str(g)}}
+			n.Kids[0] = lowAt
+		}
+	}
 	coverTree(c, t)
 	e, m, ok := safeBuild(c, t)
 	if !ok {
@@ -174,6 +189,20 @@ func newIsWorld(c *core.Ctx, g *gen.Gen, maxDepth int, withPerturb bool) *isWorl
 		addTree(&gen.Node{Kind: "lowwrap", S: []string{"p"}, Kids: []*gen.Node{{Kind: "lowleaf", S: []string{txt}}}}, "low-wrap")
 		// a reference whose chain is the candidate's chain plus/minus layers, same text
 		addTree(&gen.Node{Kind: "emptywrap", Kids: []*gen.Node{{Kind: "lowleaf", S: []string{txt}}}}, "low-extended")
+		if lowAt != nil {
+			// the same tree with the final leaf "a: b" replaced by wrapper[a](leaf[b]): equal texts at every
+			// layer, and every layer's type chain is the candidate's plus one more entry of the same type
+			cl, all := t.Clone()
+			for _, n := range all {
+				if n.Kind == "lowleaf" && len(n.S) == 1 && n.S[0] == lowAt.S[0] {
+					i := strings.Index(n.S[0], ": ")
+					n.Kind, n.Kids, n.S = "lowwrap", []*gen.Node{{Kind: "lowleaf", S: []string{n.S[0][i+2:]}}}, []string{n.S[0][:i]}
+					break
+				}
+			}
+			addTree(cl, "low-chain-strictly-extended")
+			c.Count("references-whose-chain-strictly-extends-the-candidate's", 1)
+		}
 	}
 	return w
 }
